@@ -100,7 +100,7 @@ DIMENSIONS = {
         "ops": {"contains": "N", "intersect": "N", "intersection": "N", "overlaps": "N"},
     },
     "commonroad.scenario.lanelet.Lanelet": {
-        "ctor": {"left_vertices": "V 2..7 points, all magnitudes, 3-D (var.lanelet3d)", "center_vertices": NOTXML, "right_vertices": "V",
+        "ctor": {"left_vertices": "V 2..7 points, all magnitudes, 3-D with an elevation profile (var.lanelet3d: nowhere zero, 0.0 at the first / last / an inner vertex, -0.0, zero everywhere, tiny / big)", "center_vertices": NOTXML, "right_vertices": "V",
                  "lanelet_id": "V 1..5000, up to 10^18", "predecessor": "V incl. empty, repeated entries (var.dup_refs)", "successor": "V",
                  "adjacent_left": "V None / earlier lanelet", "adjacent_left_same_direction": "V", "adjacent_right": "V None / later lanelet",
                  "adjacent_right_same_direction": "V", "line_marking_left_vertices": "V every LineMarking member incl. UNKNOWN",
